@@ -81,7 +81,7 @@ func runC42(r *Run) {
 		type op struct{ kind, fut, val int }
 		ops := make([]op, nOps)
 		for i := range ops {
-			ops[i] = op{kind: r.W.Pick(3), fut: r.W.Pick(nF)}
+			ops[i] = op{kind: []int{0, 1, 2, 0, 1, 3}[r.W.Pick(6)], fut: r.W.Pick(nF)}
 			if ops[i].kind == 2 && chainLen == 0 {
 				ops[i].kind = 0
 			}
@@ -114,6 +114,26 @@ func runC42(r *Run) {
 					futs[o.fut].Complete(o.val)
 					seq++
 					c.ret = seq
+				case 3: // ThenCompose racing with Complete: the composing step is a callback like any other
+					r.Op("compose")
+					cb := &c42cb{fut: o.fut}
+					seq++
+					cb.regSeq = seq
+					cbs = append(cbs, cb)
+					outCalls := 0
+					val := o.val
+					out := future.ThenCompose(futs[o.fut], func(v int) *future.Future[int] {
+						seq++
+						cb.calls++
+						cb.val = v
+						return future.New[int]().Complete(val)
+					})
+					out.ThenAccept(func(v int) {
+						outCalls++
+						if outCalls > 1 || v != val {
+							r.Fail("composed-result-wrong", "chain", "the composed future delivered %d (call %d), want %d once", v, outCalls, val)
+						}
+					})
 				case 2: // complete an inner future of the chain
 					r.Op("complete-inner")
 					inner[o.fut].Complete(o.val)
